@@ -46,6 +46,8 @@ def _accept_representor(c):
     c.raises()
     c.returns("str")
     c.ensures("text", lambda r, post: r == M.StrV(rtext(Mx, M.int_of(ind), kw)))
+    # the result *is* this term (so that templates built from it stay syntactically recognisable)
+    c.pure_result = lambda st: T(M.StrV(rtext(Mx, M.int_of(ind), kw)), "str")
 
 
 @accept_contract("Substitutor", props=("C16",))
